@@ -160,6 +160,16 @@ CHECKS["C14"] = {
     "design_ref": "§7 C14",
 }
 
+CHECKS["C10"] = {
+    "category": "model_checking",
+    "technique": "TLA+ ConnAdv.tla (reaction of the multiplexer to every frame-header class) enumerated by TLC and replayed on a real Mux (T2); table-driven extremes and seeded mutations through the real decoders, replica handler, inbound queue and noise stream under catch_unwind",
+    "text": "PARTIAL. Decided: every mux header path of the bounded alphabet; single-field extremes of the std conversions and genesis; validly signed consensus "
+            "messages with maximal views / empty / oversized collections; garbage ciphertext. Sampled only: decoder totality over byte strings (seeded mutations, "
+            "truncations, random strings).",
+    "note": "Not covered: preface and RPC framing (crate-private without a hook), arbitrary byte strings exhaustively (a fuzzing question). Four defects found by this check were repaired (known_findings.txt).",
+    "design_ref": "§7 C10, §9",
+}
+
 NOT_YET = "check not built yet (construction in progress; see DESIGN.md §11 build order)"
 NA_REASONS = {}
 
